@@ -1142,134 +1142,157 @@ theorem applyAction_bps (d : DState) (a : Action) :
   cases a <;> simp [applyAction, armStep] <;> split <;> simp
 
 /-! ### adapter layer: the invariant behind the partial theorem -/
-/-- Processing the whole channel in order, starting with flag `pe`: is some stop emitted? -/
-def willEmit (gens : List (Nat × Nat)) : Bool → List Stop → Bool
+
+/-- `last_stop` is the last element of the cumulative stop log. -/
+def LastOk (d : DState) : Prop := d.lastStop = d.stops.getLast?
+
+theorem lastOk_emitStop (d : DState) (r : Reason) (loc : Option Loc) (g : Option Nat) :
+    LastOk (emitStop d r loc g) := by
+  simp [LastOk, emitStop]
+
+theorem lastOk_of_eq {e d : DState} (h : LastOk d) (h1 : e.lastStop = d.lastStop) (h2 : e.stops = d.stops) :
+    LastOk e := by
+  unfold LastOk at *; rw [h1, h2]; exact h
+
+theorem lastOk_consumePending (d : DState) (tgt : Bool) (loc : Option Loc) (h : LastOk d) :
+    LastOk (consumePending d tgt loc) := by
+  unfold consumePending
+  split
+  · split
+    · exact lastOk_emitStop _ _ _ _
+    · exact h
+  · exact h
+
+theorem lastOk_bpBlock (d : DState) (l : Loc) (ctx : Bool) (h : LastOk d) : LastOk (bpBlock d l ctx) := by
+  cases hm : (matchBps d.breakpoints l ctx).2.2 with
+  | none =>
+    have he : bpBlock d l ctx =
+        { d with breakpoints := (matchBps d.breakpoints l ctx).1,
+                 logs := d.logs + (matchBps d.breakpoints l ctx).2.1 } := by
+      simp only [bpBlock, hm]
+    rw [he]; exact lastOk_of_eq h rfl rfl
+  | some g =>
+    have he : bpBlock d l ctx =
+        emitStop { d with breakpoints := (matchBps d.breakpoints l ctx).1,
+                          logs := d.logs + (matchBps d.breakpoints l ctx).2.1,
+                          steps := [], targetThread := none, mode := .paused, pendingStop := none }
+          .breakpoint (some l) (some g) := by
+      simp only [bpBlock, hm]
+    rw [he]; exact lastOk_emitStop _ _ _ _
+
+theorem lastOk_runningBlock (d : DState) (tgt : Bool) (l : Loc) (depth : Nat) (ctx : Bool) (h : LastOk d) :
+    LastOk (runningBlock d tgt l depth ctx) := by
+  obtain ⟨st', hf⟩ := stepCheck_frame d depth
+  have hsc : LastOk (stepCheck d depth).1 := lastOk_of_eq h (by simp [hf]) (by simp [hf])
+  cases tgt
+  · simp only [runningBlock, Bool.false_eq_true, if_false]
+    exact lastOk_bpBlock d l ctx h
+  · simp only [runningBlock, if_true]
+    split
+    · exact lastOk_emitStop _ _ _ _
+    · exact lastOk_bpBlock _ l ctx hsc
+
+theorem lastOk_hookBody (d : DState) (tgt : Bool) (loc : Option Loc) (depth : Nat) (ctx : Bool) (h : LastOk d) :
+    LastOk (hookBody d tgt loc depth ctx) := by
+  have hc := lastOk_consumePending d tgt loc h
+  cases loc with
+  | none =>
+    simp only [hookBody]
+    split
+    · rename_i h'; cases h'
+    · exact hc
+  | some l =>
+    simp only [hookBody]
+    split
+    · rename_i h'; cases h'
+      exact lastOk_runningBlock _ tgt l depth ctx hc
+    · exact hc
+
+theorem lastOk_hookLoop (d : DState) (loc : Option Loc) (h : LastOk d) : LastOk (hookLoop d loc).1 := by
+  rw [hookLoop_fst]; exact lastOk_consumePending d _ loc h
+
+theorem lastOk_onStatement (d : DState) (loc : Option Loc) (depth : Nat) (ctx : Bool) (h : LastOk d) :
+    LastOk (onStatement d loc depth ctx).1 := by
+  unfold onStatement hookEntry
+  apply lastOk_hookLoop
+  apply lastOk_hookBody
+  exact lastOk_of_eq h rfl rfl
+
+theorem applyAction_last (d : DState) (a : Action) :
+    (applyAction d a).1.lastStop = d.lastStop := by
+  cases a <;> simp [applyAction, armStep] <;> split <;> simp
+
+
+
+/-- What the filter does with a stop the runtime is still parked on: Pause/Entry iff expected,
+everything else is emitted. -/
+def idealEmit (st : Stop) (pe : Bool) : Bool :=
+  match st.reason with
+  | .pause | .entry => pe
+  | _ => true
+
+/-- Processing the whole channel in order, starting with flag `pe`: is some stop emitted?  (The flag
+is `false` after every processed stop.) -/
+def willEmit : Bool → List Stop → Bool
   | _, [] => false
-  | pe, st :: rest => (shouldEmitStop st pe gens).1 || willEmit gens (shouldEmitStop st pe gens).2 rest
+  | pe, st :: rest => idealEmit st pe || willEmit false rest
 
-/-- A Breakpoint stop whose generation is the current one of its file. -/
-def StopFresh (gens : List (Nat × Nat)) (st : Stop) : Prop :=
-  st.reason = .breakpoint → ∃ l g, st.loc = some l ∧ st.gen = some g ∧ alookup gens l.file = some g
+/-- The runtime is still parked, for good, on the Breakpoint stop `st`. -/
+def BpSettled (s : ASys) (st : Stop) : Prop :=
+  st.reason = .breakpoint →
+    s.parked = true ∧ s.d.mode = .paused ∧ s.d.pendingStop = none ∧ isTarget s.d = true ∧
+    s.d.lastStop = some st ∧ (∃ l, st.loc = some l) ∧ (∃ g, st.gen = some g)
 
-def BpsWF (d : DState) : Prop :=
-  ∀ bp ∈ d.breakpoints, alookup d.bpGeneration bp.loc.file = some bp.gen
-
-theorem shouldEmit_snd (st : Stop) (pe : Bool) (gens : List (Nat × Nat)) :
-    (shouldEmitStop st pe gens).2 = false := by
-  unfold shouldEmitStop
-  cases st.reason <;> simp
-  cases st.loc <;> simp
-  cases st.gen <;> simp
-
-theorem shouldEmit_fresh (st : Stop) (pe : Bool) (gens : List (Nat × Nat)) (hf : StopFresh gens st)
-    (h : st.reason = .pause ∨ st.reason = .entry → pe = true) : (shouldEmitStop st pe gens).1 = true := by
-  unfold shouldEmitStop
+theorem shouldEmit_ideal (s : ASys) (st : Stop) (pe : Bool) (h : BpSettled s st) :
+    shouldEmitStop st pe s.d.bpGeneration (stillParkedOn s.d st) = (idealEmit st pe, false) := by
   cases hr : st.reason
-  · obtain ⟨l, g, h1, h2, h3⟩ := hf hr
-    simp [h1, h2, h3]
-  · simp
-  · simpa using h (Or.inl hr)
-  · simpa using h (Or.inr hr)
+  · obtain ⟨_, hm, _, _, hl, ⟨l, hloc⟩, ⟨g, hg⟩⟩ := h hr
+    simp [shouldEmitStop, idealEmit, hr, hloc, hg, stillParkedOn, hm, hl]
+  · simp [shouldEmitStop, idealEmit, hr]
+  · simp [shouldEmitStop, idealEmit, hr]
+  · simp [shouldEmitStop, idealEmit, hr]
 
-theorem willEmit_append_always (gens : List (Nat × Nat)) (x : Stop)
-    (hx : ∀ pe, (shouldEmitStop x pe gens).1 = true) :
-    ∀ (chan : List Stop) (pe : Bool), willEmit gens pe (chan ++ [x]) = true := by
+theorem willEmit_append_always (x : Stop) (hx : ∀ pe, idealEmit x pe = true) :
+    ∀ (chan : List Stop) (pe : Bool), willEmit pe (chan ++ [x]) = true := by
   intro chan
   induction chan with
   | nil => intro pe; simp [willEmit, hx]
   | cons st rest ih => intro pe; simp [willEmit, ih]
 
-theorem willEmit_true (gens : List (Nat × Nat)) (chan : List Stop) (hne : chan ≠ [])
-    (hf : ∀ st ∈ chan, StopFresh gens st) : willEmit gens true chan = true := by
+theorem willEmit_true (chan : List Stop) (hne : chan ≠ []) : willEmit true chan = true := by
   cases chan with
   | nil => exact absurd rfl hne
   | cons st rest =>
-    simp only [willEmit]
-    rw [shouldEmit_fresh st true gens (hf st (by simp)) (fun _ => rfl)]
-    rfl
+    have : idealEmit st true = true := by unfold idealEmit; cases st.reason <;> rfl
+    simp [willEmit, this]
 
-theorem willEmit_gens (g1 g2 : List (Nat × Nat)) :
-    ∀ (chan : List Stop) (pe : Bool), (∀ st ∈ chan, st.reason ≠ .breakpoint) →
-      willEmit g1 pe chan = willEmit g2 pe chan := by
-  intro chan
-  induction chan with
-  | nil => intro pe _; rfl
-  | cons st rest ih =>
-    intro pe h
-    have hst : st.reason ≠ .breakpoint := h st (by simp)
-    have he : shouldEmitStop st pe g1 = shouldEmitStop st pe g2 := by
-      unfold shouldEmitStop
-      cases hr : st.reason <;> simp_all
-    simp only [willEmit, he]
-    rw [ih _ (fun s hs => h s (by simp [hs]))]
+/-- The settled clause after a stop `x` was appended to the channel. -/
+theorem settled_append (chan : List Stop) (x : Stop) (pe cs : Bool)
+    (hpe : x.reason = .pause ∨ x.reason = .entry → pe = true ∨ cs = true) :
+    cs = true ∨ willEmit pe (chan ++ [x]) = true := by
+  by_cases hr : x.reason = .pause ∨ x.reason = .entry
+  · rcases hpe hr with h | h
+    · right; subst h; exact willEmit_true _ (by simp)
+    · exact Or.inl h
+  · right
+    apply willEmit_append_always
+    intro pe'
+    unfold idealEmit
+    cases hx : x.reason <;> simp_all
 
-/-- Invariant of the adapter-level system along runs whose `setBreakpoints` are all safe. -/
+/-- Invariant of the adapter-level system along runs whose resume requests are all safe. -/
 structure AInv (s : ASys) : Prop where
-  bps : BpsWF s.d
-  fresh : ∀ st ∈ s.chan, StopFresh s.d.bpGeneration st
+  last : LastOk s.d
+  bpset : ∀ st ∈ s.chan, BpSettled s st
   pend : s.d.pendingStop ≠ none → s.pauseExpected = true ∨ s.clientStopped = true
   settled : s.parked = true → s.d.mode = .paused → isTarget s.d = true → s.d.pendingStop = none →
-    s.clientStopped = true ∨ willEmit s.d.bpGeneration s.pauseExpected s.chan = true
+    s.clientStopped = true ∨ willEmit s.pauseExpected s.chan = true
   idle : s.parked = false → s.d.mode = .paused → s.d.pendingStop ≠ none
   wtarget : s.parked = true → s.d.mode = .paused → s.d.pendingStop = none → isTarget s.d = true
   pk : PendingKind s.d
 
 theorem ainv_init : AInv ASys.init := by
-  constructor <;> simp [ASys.init, DState.init, BpsWF, PendingKind]
-
-theorem BpsWF.of_same {e d : DState} (h : BpsSame e d) (hd : BpsWF d) : BpsWF e := by
-  intro b' hb'
-  obtain ⟨b, hb, e1, e2⟩ := h.2 b' hb'
-  rw [h.1, e1, e2]; exact hd b hb
-
-theorem fresh_of_prov {d : DState} {loc : Option Loc} {st : Stop} (hwf : BpsWF d)
-    (hp : BpProv d loc st) : StopFresh d.bpGeneration st := by
-  intro hr
-  obtain ⟨l, bp, _, h2, h3, h4, h5⟩ := hp hr
-  exact ⟨l, bp.gen, h2, h4, h5 ▸ hwf bp h3⟩
-
-theorem alookup_ainsert_ne {β : Type} (m : List (Nat × β)) (k k' : Nat) (v : β) (h : k' ≠ k) :
-    alookup (ainsert m k v) k' = alookup m k' := by
-  induction m with
-  | nil => simp [ainsert, alookup, Ne.symm h]
-  | cons y rest ih =>
-    obtain ⟨a, b⟩ := y
-    simp only [ainsert]
-    split
-    · rename_i hak
-      simp [alookup, hak, Ne.symm h]
-    · simp [alookup, ih]
-
-theorem setBps_wf (d : DState) (file : Nat) (bps : List Bp) (hwf : BpsWF d)
-    (hfile : ∀ bp ∈ bps, bp.loc.file = file) : BpsWF (setBreakpointsForFile d file bps) := by
-  intro bp hbp
-  simp only [setBreakpointsForFile, List.mem_append, List.mem_filter, List.mem_map] at hbp ⊢
-  rcases hbp with ⟨h1, h2⟩ | ⟨b, hb, rfl⟩
-  · have hne : bp.loc.file ≠ file := by simpa using h2
-    rw [alookup_ainsert_ne _ _ _ _ hne]
-    exact hwf bp h1
-  · simp only
-    rw [hfile b hb, alookup_ainsert_self]
-
-/-- The settled clause after a stop `x` was appended to the channel. -/
-theorem settled_append (gens : List (Nat × Nat)) (chan : List Stop) (x : Stop) (pe cs : Bool)
-    (hfresh : ∀ st ∈ chan, StopFresh gens st) (hx : StopFresh gens x)
-    (hpe : x.reason = .pause ∨ x.reason = .entry → pe = true ∨ cs = true) :
-    cs = true ∨ willEmit gens pe (chan ++ [x]) = true := by
-  by_cases hr : x.reason = .pause ∨ x.reason = .entry
-  · rcases hpe hr with h | h
-    · right
-      subst h
-      apply willEmit_true _ _ (by simp)
-      intro st hst
-      rcases List.mem_append.1 hst with h | h
-      · exact hfresh st h
-      · simp at h; subst h; exact hx
-    · exact Or.inl h
-  · right
-    apply willEmit_append_always
-    intro pe'
-    exact shouldEmit_fresh x pe' gens hx (fun h => absurd h hr)
+  constructor <;> simp [ASys.init, DState.init, LastOk, PendingKind]
 
 theorem ainv_hook (s : ASys) (loc : Option Loc) (depth : Nat) (h : AInv s) :
     AInv (astep s (.hook loc depth)) := by
@@ -1277,32 +1300,35 @@ theorem ainv_hook (s : ASys) (loc : Option Loc) (depth : Nat) (h : AInv s) :
   · simpa [astep, hp'] using h
   have hp : s.parked = false := by simpa using hp'
   have hidle := h.idle hp
-  have hsame := onStatement_bps s.d loc depth false h.pk
-  have hwf' : BpsWF (onStatement s.d loc depth false).1 := BpsWF.of_same hsame h.bps
+  have hnb : ∀ st ∈ s.chan, st.reason ≠ .breakpoint := by
+    intro st hst hr
+    have := (h.bpset st hst hr).1
+    rw [hp] at this; cases this
+  have hlast := lastOk_onStatement s.d loc depth false h.last
   have hpk' := pendingKind_onStatement s.d loc depth false h.pk
-  have hcur := onStatement_current s.d loc depth false
   rcases onStatement_cases s.d loc depth false hidle with ⟨h1, h2, h3, h4, r, g, h5, hw⟩ | ⟨h1, h2, h3, h4, h5, h6⟩
   · -- parks after one stop `x`
     have hs : astep s (.hook loc depth) =
         { s with d := (onStatement s.d loc depth false).1, parked := true, parkLoc := loc,
                  chan := s.chan ++ [⟨r, loc, s.d.currentThread, g⟩] } := by
       simp [astep, hp, h1, h5]
-    have hx : StopFresh s.d.bpGeneration ⟨r, loc, s.d.currentThread, g⟩ :=
-      fresh_of_prov h.bps (onStatement_prov s.d loc depth false h.pk hidle _ h5)
+    have hprov := onStatement_prov s.d loc depth false h.pk hidle _ h5
+    have hl : (onStatement s.d loc depth false).1.lastStop = some ⟨r, loc, s.d.currentThread, g⟩ := by
+      rw [hlast, h5]; simp
     rw [hs]
     constructor
-    · exact hwf'
-    · intro st hst
-      simp only [hsame.1]
+    · exact hlast
+    · intro st hst hr
       rcases List.mem_append.1 hst with hm | hm
-      · exact h.fresh st hm
-      · simp at hm; subst hm; exact hx
+      · exact absurd hr (hnb st hm)
+      · simp at hm
+        subst hm
+        obtain ⟨l, bp, _, a2, _, a4, _⟩ := hprov hr
+        exact ⟨rfl, h2, h4, h3, hl, ⟨l, a2⟩, ⟨bp.gen, a4⟩⟩
     · intro hne; exact absurd h4 hne
     · intro _ _ _ _
-      simp only [hsame.1]
-      apply settled_append _ _ _ _ _ h.fresh hx
+      apply settled_append
       intro hr
-      -- a Pause/Entry stop can only be the pending one
       simp only at hr
       rcases hw with ⟨hs', _⟩ | hb | hpend
       · rcases hr with hr | hr <;> (rw [hs'] at hr; cases hr)
@@ -1317,8 +1343,8 @@ theorem ainv_hook (s : ASys) (loc : Option Loc) (depth : Nat) (h : AInv s) :
       simp [astep, hp, h1, h2]
     rw [hs]
     constructor
-    · exact hwf'
-    · intro st hst; simp only [hsame.1]; exact h.fresh st hst
+    · exact hlast
+    · intro st hst hr; exact absurd hr (hnb st hst)
     · intro hne; exact h.pend (h4 ▸ hne)
     · intro hf; cases hf
     · intro _ hm; rw [h4]; exact hidle (h3 ▸ hm)
@@ -1328,8 +1354,7 @@ theorem ainv_hook (s : ASys) (loc : Option Loc) (depth : Nat) (h : AInv s) :
 theorem ainv_wake (s : ASys) (h : AInv s) : AInv (astep s .wake) := by
   cases hp : s.parked
   · simpa [astep, hp] using h
-  have hsame := hookLoop_bps s.d s.parkLoc
-  have hwf' : BpsWF (hookLoop s.d s.parkLoc).1 := BpsWF.of_same hsame h.bps
+  have hlast := lastOk_hookLoop s.d s.parkLoc h.last
   have hpk' := pendingKind_hookLoop s.d s.parkLoc h.pk
   rcases hookLoop_cases s.d s.parkLoc with ⟨k1, k2, k3⟩ | ⟨k1, km, kt, k4, k5, k6, k7, k | ⟨r, k, k'⟩⟩
   · -- leaves the hook, state unchanged
@@ -1337,8 +1362,12 @@ theorem ainv_wake (s : ASys) (h : AInv s) : AInv (astep s .wake) := by
       simp [astep, hp, k1, k2]
     rw [hs]
     constructor
-    · exact h.bps
-    · exact h.fresh
+    · exact h.last
+    · intro st hst hr
+      obtain ⟨_, b2, _, b4, _⟩ := h.bpset st hst hr
+      rcases k3 with k3 | k3
+      · rw [k3] at b2; cases b2
+      · rw [k3] at b4; cases b4
     · exact h.pend
     · intro hf; cases hf
     · intro _ hm hpn
@@ -1358,34 +1387,34 @@ theorem ainv_wake (s : ASys) (h : AInv s) : AInv (astep s .wake) := by
         { s with d := (hookLoop s.d s.parkLoc).1, parked := true,
                  chan := s.chan ++ [⟨r, s.parkLoc, s.d.currentThread, none⟩] } := by
       simp [astep, hp, k1, k']
-    have hx : StopFresh s.d.bpGeneration ⟨r, s.parkLoc, s.d.currentThread, none⟩ := by
-      intro hr
-      rcases h.pk r k with h' | h' <;> (simp only at hr; rw [h'] at hr; cases hr)
+    have hnb : ∀ st ∈ s.chan, st.reason ≠ .breakpoint := by
+      intro st hst hr
+      have := (h.bpset st hst hr).2.2.1
+      rw [k] at this; cases this
     rw [hs]
     constructor
-    · exact hwf'
-    · intro st hst
-      simp only [hsame.1]
+    · exact hlast
+    · intro st hst hr
       rcases List.mem_append.1 hst with hm | hm
-      · exact h.fresh st hm
-      · simp at hm; subst hm; exact hx
+      · exact absurd hr (hnb st hm)
+      · simp at hm; subst hm
+        rcases h.pk r k with h' | h' <;> (simp only at hr; rw [h'] at hr; cases hr)
     · intro hne; exact absurd k6 hne
     · intro _ _ _ _
-      simp only [hsame.1]
-      apply settled_append _ _ _ _ _ h.fresh hx
+      apply settled_append
       intro _
       exact h.pend (by simp [k])
     · intro hf; cases hf
     · intro _ _ _; exact k5
     · exact hpk'
 
-theorem ainv_resume (s : ASys) (a : Action) (ha : a.isResume = true) (pe : Bool) (h : AInv s) :
+theorem ainv_resume (s : ASys) (a : Action) (ha : a.isResume = true) (pe : Bool) (h : AInv s)
+    (hnb : ∀ st ∈ s.chan, st.reason ≠ .breakpoint) :
     AInv { s with pauseExpected := pe, d := (applyAction s.d a).1, clientStopped := false } := by
-  obtain ⟨r1, r2, _, _, _⟩ := applyAction_resume_mode s.d a ha
-  obtain ⟨b1, b2⟩ := applyAction_bps s.d a
+  obtain ⟨r1, r2, _, r4, _⟩ := applyAction_resume_mode s.d a ha
   constructor
-  · intro bp hbp; simp only [b1, b2] at hbp ⊢; exact h.bps bp hbp
-  · intro st hst; simp only [b2]; exact h.fresh st hst
+  · exact lastOk_of_eq h.last (applyAction_last s.d a) r4
+  · intro st hst hr; exact absurd hr (hnb st hst)
   · intro hne; exact absurd r2 hne
   · intro _ hm; simp only at hm; rw [r1] at hm; cases hm
   · intro _ hm; simp only at hm; rw [r1] at hm; cases hm
@@ -1400,64 +1429,57 @@ theorem ainv_step (s : ASys) (l : ALabel) (h : AInv s) (hok : s.okLabel l = true
   | reqPause =>
     rcases applyAction_pause_cases s.d none with ⟨hm, _⟩ | ⟨hm, e1, e2, _⟩
     · simpa [astep, hm] using h
-    · obtain ⟨b1, b2⟩ := applyAction_bps s.d (.pause none)
-      have hs : astep s .reqPause = { s with pauseExpected := true, d := (applyAction s.d (.pause none)).1 } := by
+    · have hs : astep s .reqPause = { s with pauseExpected := true, d := (applyAction s.d (.pause none)).1 } := by
         simp [astep, hm]
       rw [hs]
       constructor
-      · intro bp hbp; simp only [b1, b2] at hbp ⊢; exact h.bps bp hbp
-      · intro st hst; simp only [b2]; exact h.fresh st hst
+      · exact lastOk_of_eq h.last (applyAction_last s.d _) (applyAction_depths s.d _).2.2.2
+      · intro st hst hr
+        have := (h.bpset st hst hr).2.1
+        rw [hm] at this; cases this
       · intro _; exact Or.inl rfl
       · intro _ _ _ hpn; simp only at hpn; rw [e2] at hpn; cases hpn
       · intro _ _; simp [e2]
       · intro _ _ hpn; simp only at hpn; rw [e2] at hpn; cases hpn
       · exact pendingKind_applyAction s.d _ h.pk
-  | reqContinue => exact ainv_resume s .continue_ rfl false h
+  | reqContinue =>
+    have hnb : ∀ st ∈ s.chan, st.reason ≠ .breakpoint := by
+      simp only [ASys.okLabel, List.all_eq_true] at hok
+      intro st hst; simpa using hok st hst
+    exact ainv_resume s .continue_ rfl false h hnb
   | reqStep a =>
     cases ha : a.isStep
     · simpa [astep, ha] using h
     · have hr : a.isResume = true := by cases a <;> simp_all [Action.isStep, Action.isResume]
+      have hnb : ∀ st ∈ s.chan, st.reason ≠ .breakpoint := by
+        simp only [ASys.okLabel, ha, Bool.not_true, Bool.false_or, List.all_eq_true] at hok
+        intro st hst; simpa using hok st hst
       have hs : astep s (.reqStep a) = { s with pauseExpected := s.pauseExpected, d := (applyAction s.d a).1, clientStopped := false } := by
         simp [astep, ha]
-      rw [hs]; exact ainv_resume s a hr s.pauseExpected h
+      rw [hs]; exact ainv_resume s a hr s.pauseExpected h hnb
   | reqSetBps file bps =>
-    simp only [ASys.okLabel, Bool.and_eq_true, List.all_eq_true] at hok
-    obtain ⟨hfile, hchan⟩ := hok
-    have hnb : ∀ st ∈ s.chan, st.reason ≠ .breakpoint := by
-      intro st hst; simpa using hchan st hst
     have hs : astep s (.reqSetBps file bps) = { s with d := setBreakpointsForFile s.d file bps } := rfl
     rw [hs]
-    constructor
-    · exact setBps_wf s.d file bps h.bps (fun bp hbp => by simpa using hfile bp hbp)
-    · intro st hst hr; exact absurd hr (hnb st hst)
-    · exact h.pend
-    · intro a1 a2 a3 a4
-      rcases h.settled a1 a2 a3 a4 with hc | hc
-      · exact Or.inl hc
-      · right
-        rw [← hc]
-        exact willEmit_gens _ _ _ _ hnb
-    · exact h.idle
-    · exact h.wtarget
-    · exact h.pk
+    exact ⟨h.last, h.bpset, h.pend, h.settled, h.idle, h.wtarget, h.pk⟩
   | coord =>
     cases hc : s.chan with
     | nil => simpa [astep, hc] using h
     | cons st rest =>
+      have hid := shouldEmit_ideal s st s.pauseExpected (h.bpset st (by simp [hc]))
       have hs : astep s .coord =
-          { s with chan := rest, pauseExpected := (shouldEmitStop st s.pauseExpected s.d.bpGeneration).2,
-                   emitted := if (shouldEmitStop st s.pauseExpected s.d.bpGeneration).1 then s.emitted ++ [st] else s.emitted,
-                   clientStopped := s.clientStopped || (shouldEmitStop st s.pauseExpected s.d.bpGeneration).1 } := by
-        simp [astep, hc]
-      have hfst : StopFresh s.d.bpGeneration st := h.fresh st (by simp [hc])
+          { s with chan := rest, pauseExpected := false,
+                   emitted := if idealEmit st s.pauseExpected then s.emitted ++ [st] else s.emitted,
+                   clientStopped := s.clientStopped || idealEmit st s.pauseExpected } := by
+        simp [astep, hc, hid]
       rw [hs]
       constructor
-      · exact h.bps
-      · intro x hx; exact h.fresh x (by simp [hc, hx])
+      · exact h.last
+      · intro x hx; exact h.bpset x (by simp [hc, hx])
       · intro hne
         right
         rcases h.pend hne with hpe | hcs
-        · simp [shouldEmit_fresh st s.pauseExpected _ hfst (fun _ => hpe)]
+        · have : idealEmit st true = true := by unfold idealEmit; cases st.reason <;> rfl
+          simp [hpe, this]
         · simp [hcs]
       · intro a1 a2 a3 a4
         rcases h.settled a1 a2 a3 a4 with hcs | hwe
